@@ -428,6 +428,123 @@ def generate(unit: Unit, root, rules_mod):
         parts.append(f"// ---- prelude {p}\n" + t + "\n")
         meta["linemap"].append({"kind": "prelude", "name": p, "start": start, "end": cur_line()})
 
+    _gen_one = None
+    def _gen_fn_item(it):
+            if it.optional:
+                try:
+                    src.find_fn(it.name, it.container)
+                except AnchorLost:
+                    meta["rewrites"].append({"where": f"{it.file}::{it.name}", "kind": "optional-item-absent", "old": "", "new": "", "count": 0})
+                    return
+            s, b, e = src.find_fn(it.name, it.container)
+            orig = src.text[s:e + 1]
+            where = f"{it.file}::{(it.container + '::') if it.container else ''}{it.name}"
+            orig_unmarked = orig
+            if isinstance(it.cut_from, re.Pattern):
+                # a start anchor given as a pattern: it must match exactly once; the matched text is the anchor
+                hits = [mt for mt in it.cut_from.finditer(orig)]
+                if len(hits) != 1:
+                    raise AnchorLost(f"{where}: cut_from pattern {it.cut_from.pattern!r} matches {len(hits)}x")
+                import copy as _copy2
+                it = _copy2.copy(it)
+                # the matched TEXT may occur elsewhere too (the pattern can use look-ahead): mark the matched position
+                orig_unmarked = orig
+                orig = orig[:hits[0].start()] + CUT_MARK + orig[hits[0].start():]
+                it.cut_from = CUT_MARK + hits[0].group(0)
+            if it.cut_before == "@block-end":
+                # middle fragment ending where the block that encloses the start anchor ends (e.g. one match arm `=> { .. }`)
+                if not it.cut_from or orig.count(it.cut_from) != 1:
+                    raise AnchorLost(f"{where}: cut_from anchor {it.cut_from!r} occurs {orig.count(it.cut_from or '')}x")
+                mo = mask(orig)
+                pos = orig.index(it.cut_from) + (len(it.cut_from) if it.cut_inside else 0)
+                depth, k = 0, pos
+                while k > 0:
+                    k -= 1
+                    if mo[k] == "}":
+                        depth += 1
+                    elif mo[k] == "{":
+                        if depth == 0:
+                            break
+                        depth -= 1
+                end = match_delim(mo, k)
+                orig_kept = orig[:end] + it.cut_tail + "\n}"
+                meta["rewrites"].append({"where": where, "kind": "fragment", "old": f"<everything after the block that starts at line {src.line_of(s + k)}>", "new": it.cut_tail, "count": 1})
+            elif it.cut_before:
+                if it.cut_from:
+                    # middle fragment: the end anchor is its first occurrence AFTER the (unique) start anchor
+                    if orig.count(it.cut_from) != 1:
+                        raise AnchorLost(f"{where}: cut_from anchor {it.cut_from!r} occurs {orig.count(it.cut_from)}x")
+                    cut = orig.find(it.cut_before, orig.index(it.cut_from))
+                    if cut < 0:
+                        raise AnchorLost(f"{where}: cut anchor {it.cut_before!r} does not occur after {it.cut_from!r}")
+                else:
+                    k = orig.count(it.cut_before)
+                    if k != 1:
+                        raise AnchorLost(f"{where}: cut anchor {it.cut_before!r} occurs {k}x")
+                    cut = orig.index(it.cut_before)
+                dropped = orig[cut:]
+                orig_kept = orig[:cut] + it.cut_tail + "\n}"
+                meta["rewrites"].append({"where": where, "kind": "fragment", "old": f"<{dropped.count(chr(10))} lines from `{it.cut_before}` to the end of the function>",
+                                         "new": it.cut_tail, "count": 1})
+            else:
+                orig_kept = orig
+            if it.cut_from:
+                k = orig_kept.count(it.cut_from)
+                if k != 1:
+                    raise AnchorLost(f"{where}: cut_from anchor {it.cut_from!r} occurs {k}x")
+                cut = orig_kept.index(it.cut_from)
+                if it.cut_inside:
+                    cut = cut + len(it.cut_from)          # anchor is a block header: the fragment is the inside of that block
+                else:
+                    cut = orig_kept.rfind("\n", 0, cut) + 1
+                meta["rewrites"].append({"where": where, "kind": "fragment", "old": f"<signature and {orig_kept[:cut].count(chr(10))} lines before `{it.cut_from}`>",
+                                         "new": it.sig, "count": 1})
+                orig_kept = it.sig.rstrip() + " {\n" + orig_kept[cut:]
+            orig_kept = orig_kept.replace(CUT_MARK, "")
+            if it.pre_rewrites:
+                orig_kept = apply_site_rewrites(orig_kept, it.pre_rewrites, meta["rewrites"], where)
+            t = rules_mod.apply_rules(orig_kept, rules, ctx, meta["rule_counts"], where)
+            # loop ordinals and ghost anchors refer to the text after generic rules and site rewrites
+            t = apply_site_rewrites(t, it.rewrites, meta["rewrites"], where)
+            if it.as_spec:
+                t = to_spec_fn(t, it, where)
+                n_loops = 0
+                meta["rewrites"].append({"where": where, "kind": "as-spec", "old": "fn " + it.name, "new": "pub open spec fn " + it.name + "_spec (same body)", "count": 1})
+            elif it.contract_only:
+                import copy as _copy
+                it2 = _copy.copy(it)
+                it2.loops, it2.ghost = {}, []
+                t, n_loops = annotate_fn(t, it2, meta["rewrites"], where)
+                mt_ = mask(t)
+                end_ = len(mt_.rstrip()) - 1
+                bo = find_top_level(mt_, mt_.index("fn "), "{")
+                while bo >= 0 and match_delim(mt_, bo) != end_:   # braces inside the contract (if/let/match expressions) are not the body
+                    bo = find_top_level(mt_, match_delim(mt_, bo) + 1, "{")
+                if bo < 0:
+                    raise AnchorLost(f"{where}: body of contract-only function not found")
+                t = "#[verifier::external_body]\n" + t[:bo] + "{ unimplemented!() }"
+                meta["rewrites"].append({"where": where, "kind": "contract-only", "old": "<body>", "new": "external_body stub (contract proved in its own unit)", "count": 1})
+            else:
+                # Verus type-checks std iterator adapter chains but has no specification for their results: a function that still
+                # contains one after the rules ran would fail its contract for lack of a spec, not because of the code.  That is an
+                # unsupported construct (UNDECIDED), never an alarm.
+                ad = ADAPTER_RE.search(mask(t))
+                if ad:
+                    raise Unsupported(f"{where}: std iterator adapter chain `{ad.group(0)}` is covered by no extraction rule (no specification for its result)")
+                t, n_loops = annotate_fn(t, it, meta["rewrites"], where)
+            wrap = it.as_method_of if it.as_method_of else (it.container if (it.container and " for " not in it.container and not it.drop_self_impl) else None)
+            start = cur_line()
+            hdr = f"// ---- {where} (lines {src.line_of(s)}-{src.line_of(e)})\n"
+            if wrap:
+                parts.append(hdr + f"impl {wrap} {{\n" + t + "\n}\n")
+            else:
+                parts.append(hdr + t + "\n")
+            meta["linemap"].append({"kind": "fn", "name": it.rename or it.name, "container": wrap, "start": start, "end": cur_line(), "where": where})
+            meta["items"].append({"item": where, "lines": [src.line_of(s), src.line_of(e)], "sha256": sha(orig_unmarked), "kind": "fn",
+                                  "loops": n_loops, "loops_with_invariant": (n_loops if it.loop_fn is not None else len(it.loops)),
+                                  "loops_by_header": it.loop_fn is not None,
+                                  "has_contract": bool(it.contract if callable(it.contract) else it.contract.strip()), "obligation": it.obligation, "rename": it.rename, "contract_only": bool(it.contract_only)})
+    _gen_one = _gen_fn_item
     for it in unit.items:
         if isinstance(it, Raw):
             if it.path:
@@ -458,120 +575,15 @@ def generate(unit: Unit, root, rules_mod):
             meta["items"].append({"item": where, "lines": [src.line_of(s), src.line_of(e)], "sha256": sha(orig), "kind": it.kw})
             continue
         assert isinstance(it, Fn)
-        if it.optional:
+        if it.cut_from and not it.contract_only and _gen_one is not None:
+            # a FRAGMENT is a leaf of its unit (nothing else calls it): when its anchors are lost the other items are still generated and verified, so that a
+            # lost anchor in one fragment does not hide a failing obligation in another; the unit can then no longer be green (report.run_unit)
             try:
-                src.find_fn(it.name, it.container)
-            except AnchorLost:
-                meta["rewrites"].append({"where": f"{it.file}::{it.name}", "kind": "optional-item-absent", "old": "", "new": "", "count": 0})
-                continue
-        s, b, e = src.find_fn(it.name, it.container)
-        orig = src.text[s:e + 1]
-        where = f"{it.file}::{(it.container + '::') if it.container else ''}{it.name}"
-        orig_unmarked = orig
-        if isinstance(it.cut_from, re.Pattern):
-            # a start anchor given as a pattern: it must match exactly once; the matched text is the anchor
-            hits = [mt for mt in it.cut_from.finditer(orig)]
-            if len(hits) != 1:
-                raise AnchorLost(f"{where}: cut_from pattern {it.cut_from.pattern!r} matches {len(hits)}x")
-            import copy as _copy2
-            it = _copy2.copy(it)
-            # the matched TEXT may occur elsewhere too (the pattern can use look-ahead): mark the matched position
-            orig_unmarked = orig
-            orig = orig[:hits[0].start()] + CUT_MARK + orig[hits[0].start():]
-            it.cut_from = CUT_MARK + hits[0].group(0)
-        if it.cut_before == "@block-end":
-            # middle fragment ending where the block that encloses the start anchor ends (e.g. one match arm `=> { .. }`)
-            if not it.cut_from or orig.count(it.cut_from) != 1:
-                raise AnchorLost(f"{where}: cut_from anchor {it.cut_from!r} occurs {orig.count(it.cut_from or '')}x")
-            mo = mask(orig)
-            pos = orig.index(it.cut_from) + (len(it.cut_from) if it.cut_inside else 0)
-            depth, k = 0, pos
-            while k > 0:
-                k -= 1
-                if mo[k] == "}":
-                    depth += 1
-                elif mo[k] == "{":
-                    if depth == 0:
-                        break
-                    depth -= 1
-            end = match_delim(mo, k)
-            orig_kept = orig[:end] + it.cut_tail + "\n}"
-            meta["rewrites"].append({"where": where, "kind": "fragment", "old": f"<everything after the block that starts at line {src.line_of(s + k)}>", "new": it.cut_tail, "count": 1})
-        elif it.cut_before:
-            if it.cut_from:
-                # middle fragment: the end anchor is its first occurrence AFTER the (unique) start anchor
-                if orig.count(it.cut_from) != 1:
-                    raise AnchorLost(f"{where}: cut_from anchor {it.cut_from!r} occurs {orig.count(it.cut_from)}x")
-                cut = orig.find(it.cut_before, orig.index(it.cut_from))
-                if cut < 0:
-                    raise AnchorLost(f"{where}: cut anchor {it.cut_before!r} does not occur after {it.cut_from!r}")
-            else:
-                k = orig.count(it.cut_before)
-                if k != 1:
-                    raise AnchorLost(f"{where}: cut anchor {it.cut_before!r} occurs {k}x")
-                cut = orig.index(it.cut_before)
-            dropped = orig[cut:]
-            orig_kept = orig[:cut] + it.cut_tail + "\n}"
-            meta["rewrites"].append({"where": where, "kind": "fragment", "old": f"<{dropped.count(chr(10))} lines from `{it.cut_before}` to the end of the function>",
-                                     "new": it.cut_tail, "count": 1})
-        else:
-            orig_kept = orig
-        if it.cut_from:
-            k = orig_kept.count(it.cut_from)
-            if k != 1:
-                raise AnchorLost(f"{where}: cut_from anchor {it.cut_from!r} occurs {k}x")
-            cut = orig_kept.index(it.cut_from)
-            if it.cut_inside:
-                cut = cut + len(it.cut_from)          # anchor is a block header: the fragment is the inside of that block
-            else:
-                cut = orig_kept.rfind("\n", 0, cut) + 1
-            meta["rewrites"].append({"where": where, "kind": "fragment", "old": f"<signature and {orig_kept[:cut].count(chr(10))} lines before `{it.cut_from}`>",
-                                     "new": it.sig, "count": 1})
-            orig_kept = it.sig.rstrip() + " {\n" + orig_kept[cut:]
-        orig_kept = orig_kept.replace(CUT_MARK, "")
-        if it.pre_rewrites:
-            orig_kept = apply_site_rewrites(orig_kept, it.pre_rewrites, meta["rewrites"], where)
-        t = rules_mod.apply_rules(orig_kept, rules, ctx, meta["rule_counts"], where)
-        # loop ordinals and ghost anchors refer to the text after generic rules and site rewrites
-        t = apply_site_rewrites(t, it.rewrites, meta["rewrites"], where)
-        if it.as_spec:
-            t = to_spec_fn(t, it, where)
-            n_loops = 0
-            meta["rewrites"].append({"where": where, "kind": "as-spec", "old": "fn " + it.name, "new": "pub open spec fn " + it.name + "_spec (same body)", "count": 1})
-        elif it.contract_only:
-            import copy as _copy
-            it2 = _copy.copy(it)
-            it2.loops, it2.ghost = {}, []
-            t, n_loops = annotate_fn(t, it2, meta["rewrites"], where)
-            mt_ = mask(t)
-            end_ = len(mt_.rstrip()) - 1
-            bo = find_top_level(mt_, mt_.index("fn "), "{")
-            while bo >= 0 and match_delim(mt_, bo) != end_:   # braces inside the contract (if/let/match expressions) are not the body
-                bo = find_top_level(mt_, match_delim(mt_, bo) + 1, "{")
-            if bo < 0:
-                raise AnchorLost(f"{where}: body of contract-only function not found")
-            t = "#[verifier::external_body]\n" + t[:bo] + "{ unimplemented!() }"
-            meta["rewrites"].append({"where": where, "kind": "contract-only", "old": "<body>", "new": "external_body stub (contract proved in its own unit)", "count": 1})
-        else:
-            # Verus type-checks std iterator adapter chains but has no specification for their results: a function that still
-            # contains one after the rules ran would fail its contract for lack of a spec, not because of the code.  That is an
-            # unsupported construct (UNDECIDED), never an alarm.
-            ad = ADAPTER_RE.search(mask(t))
-            if ad:
-                raise Unsupported(f"{where}: std iterator adapter chain `{ad.group(0)}` is covered by no extraction rule (no specification for its result)")
-            t, n_loops = annotate_fn(t, it, meta["rewrites"], where)
-        wrap = it.as_method_of if it.as_method_of else (it.container if (it.container and " for " not in it.container and not it.drop_self_impl) else None)
-        start = cur_line()
-        hdr = f"// ---- {where} (lines {src.line_of(s)}-{src.line_of(e)})\n"
-        if wrap:
-            parts.append(hdr + f"impl {wrap} {{\n" + t + "\n}\n")
-        else:
-            parts.append(hdr + t + "\n")
-        meta["linemap"].append({"kind": "fn", "name": it.rename or it.name, "container": wrap, "start": start, "end": cur_line(), "where": where})
-        meta["items"].append({"item": where, "lines": [src.line_of(s), src.line_of(e)], "sha256": sha(orig_unmarked), "kind": "fn",
-                              "loops": n_loops, "loops_with_invariant": (n_loops if it.loop_fn is not None else len(it.loops)),
-                              "loops_by_header": it.loop_fn is not None,
-                              "has_contract": bool(it.contract if callable(it.contract) else it.contract.strip()), "obligation": it.obligation, "rename": it.rename, "contract_only": bool(it.contract_only)})
+                _gen_one(it)
+            except (AnchorLost, Unsupported) as e_:
+                meta.setdefault("lost_items", []).append({"item": f"{it.file}::{it.rename or it.name}", "reason": str(e_)})
+            continue
+        _gen_fn_item(it)
     parts.append("\n} // verus!\nfn main() {}\n")
     meta["dropped_hints"] = sorted(set(DROPPED_HINTS))
     return "".join(parts), meta
